@@ -28,8 +28,10 @@ func init() {
 
 // grid: one model unit = 1/16 of a Go unit; minResource (0.1) lies strictly
 // between 1/16 and 2/16, so on this grid "x < minResource" is "x16 < 2".
-const grid = 16.0
+var grid = 16.0 // set per selector: 16 for the 1/16 grid, 1 for the unit grid of the large-magnitude streams
+
 const epsUnits = 2
+const sentinelTok = -7777777 // stands for math.MaxFloat64
 
 type tokReader struct {
 	t []int64
@@ -38,8 +40,15 @@ type tokReader struct {
 
 func (r *tokReader) next() int64 { v := r.t[r.i]; r.i++; return v }
 
+func tokVal(t int64) float64 {
+	if t == sentinelTok {
+		return math.MaxFloat64
+	}
+	return float64(t) / grid
+}
+
 func decRes(r *tokReader) *api.Resource {
-	res := &api.Resource{MilliCPU: float64(r.next()) / grid, Memory: float64(r.next()) / grid}
+	res := &api.Resource{MilliCPU: tokVal(r.next()), Memory: tokVal(r.next())}
 	nonNil := r.next() != 0
 	n := int(r.next())
 	if nonNil {
@@ -48,7 +57,7 @@ func decRes(r *tokReader) *api.Resource {
 	for i := 0; i < n; i++ {
 		k := r.next()
 		v := r.next()
-		res.ScalarResources[scalarName[k]] = float64(v) / grid
+		res.ScalarResources[scalarName[k]] = tokVal(v)
 	}
 	return res
 }
@@ -191,7 +200,39 @@ func checkAliasing(r, rr, req *api.Resource) {
 	}
 }
 
+func resCmp(r, rr, req *api.Resource) (out []int64) {
+	app := func(xs ...[]int64) {
+		for _, x := range xs {
+			out = append(out, x...)
+		}
+	}
+	b := func(v bool) []int64 { return []int64{vh.B(v)} }
+	app(tag(6), b(r.Less(rr, api.Zero)), b(r.Less(rr, api.Infinity)))
+	app(tag(7), b(r.LessEqual(rr, api.Zero)), b(r.LessEqual(rr, api.Infinity)))
+	_, n0 := r.LessEqualWithResourcesName(rr, api.Zero)
+	_, n1 := r.LessEqualWithResourcesName(rr, api.Infinity)
+	app(tag(8), encNames(n0), encNames(n1))
+	app(tag(9), b(r.LessPartly(rr, api.Zero)), b(r.LessPartly(rr, api.Infinity)))
+	app(tag(10), b(r.LessEqualPartly(rr, api.Zero)), b(r.LessEqualPartly(rr, api.Infinity)))
+	app(tag(11), b(r.Equal(rr, api.Zero)))
+	_, n := r.LessEqualWithDimensionAndResourcesName(rr, req)
+	app(tag(12), encNames(n))
+	_, n = r.LessEqualPartlyWithDimension(rr, req)
+	app(tag(13), encNames(n))
+	_, n = r.GreaterPartlyWithDimension(rr, req)
+	app(tag(14), encNames(n))
+	g0, _ := r.GreaterPartly(rr, api.Zero)
+	g1, _ := r.GreaterPartly(rr, api.Infinity)
+	app(tag(20), b(g0), b(g1))
+	app(tag(21), b(r.LessEqual(r, api.Zero)), b(r.LessEqual(r, api.Infinity)), b(r.Equal(r, api.Zero)))
+	return out
+}
+
 func run(sel int, in []int64) []int64 {
+	grid = 16.0
+	if sel == 11 || sel == 12 {
+		grid = 1.0
+	}
 	switch sel {
 	case 1:
 		return []int64{api.SaturatingAdd(in[0], in[1])}
@@ -213,13 +254,19 @@ func run(sel int, in []int64) []int64 {
 			panic("round trip left the integers")
 		}
 		return []int64{int64(back)}
-	case 10:
+	case 10, 11:
 		tr := &tokReader{t: in, i: 1}
 		r := decRes(tr)
 		rr := decRes(tr)
 		req := decRes(tr)
 		checkAliasing(r, rr, req)
 		return resAll(r, rr, req)
+	case 12:
+		tr := &tokReader{t: in, i: 1}
+		r := decRes(tr)
+		rr := decRes(tr)
+		req := decRes(tr)
+		return resCmp(r, rr, req)
 	}
 	panic("unknown selector")
 }
@@ -333,7 +380,11 @@ func laws(sel int, in, got []int64, law func(lsel int, lin []int64, sig string))
 		law(103, append(append([]int64{}, in...), got[0]), "")
 	case 4:
 		law(104, []int64{in[0], got[0]}, "")
-	case 10:
+	case 10, 11:
+		grid = 16.0
+		if sel == 11 {
+			grid = 1.0
+		}
 		tr := &tokReader{t: in, i: 1}
 		r, rr := decRes(tr), decRes(tr)
 		cat := func(xs ...[]int64) (o []int64) {
@@ -399,6 +450,76 @@ func gen(rng *vh.Rng, n int, emit func(id string, sel int, in []int64, kind stri
 			x = vh.Pick(rng, []int64{0, 1, 999, 1000, 1 << 20, (1 << 53) - 1, 1 << 53, 1 << 40})
 		}
 		emit(fmt.Sprintf("quantity-%d", i), 4, []int64{x, int64(rng.Intn(4))}, "quantity_roundtrip", x > 0, nil)
+	}
+	// large magnitudes on the unit grid: multiples of 2^12 up to 2^60 (all of res_all stays exact)
+	bigAmt := func() int64 {
+		switch rng.Intn(6) {
+		case 0:
+			return 0
+		case 1:
+			return int64(rng.Range(1, 9)) << 50
+		case 2:
+			return int64(rng.Range(1, 3)) << 53
+		case 3:
+			return (int64(1) << 60) - (int64(rng.Range(0, 3)) << 12)
+		case 4:
+			return (int64(rng.Range(1, 1<<20)) << 30)
+		default:
+			return int64(rng.Range(0, 7)) << 12
+		}
+	}
+	bigRes := func(base []int64, sentinel bool) []int64 {
+		pick := func(i int) int64 {
+			if sentinel && rng.Chance(1, 3) {
+				return sentinelTok
+			}
+			if base != nil && rng.Chance(1, 2) {
+				return base[i]
+			}
+			return bigAmt()
+		}
+		out := []int64{pick(0), pick(1)}
+		switch rng.Intn(4) {
+		case 0:
+			return append(out, 0, 0)
+		}
+		keys := []int64{}
+		for _, k := range []int64{1, 4, 7} {
+			if rng.Chance(1, 2) {
+				keys = append(keys, k)
+			}
+		}
+		out = append(out, 1, int64(len(keys)))
+		for _, k := range keys {
+			v := bigAmt()
+			if base != nil && rng.Chance(1, 2) {
+				for j := 0; j < int(base[3]); j++ {
+					if base[4+2*j] == k {
+						v = base[5+2*j]
+					}
+				}
+			}
+			if sentinel && rng.Chance(1, 4) {
+				v = sentinelTok
+			}
+			out = append(out, k, v)
+		}
+		return out
+	}
+	for i := 0; i < n/2+1; i++ {
+		r := bigRes(nil, false)
+		rr := bigRes(r, false)
+		req := bigRes(r, false)
+		in := append(append(append([]int64{1}, r...), rr...), req...)
+		emit(fmt.Sprintf("res-big-%d", i), 11, in, "resource/all-methods/2^50..2^60", true, nil)
+	}
+	// the infinite sentinel (math.MaxFloat64) and 2^53-scale values: comparisons only
+	for i := 0; i < n/2+1; i++ {
+		r := bigRes(nil, true)
+		rr := bigRes(r, true)
+		req := bigRes(rr, true)
+		in := append(append(append([]int64{1}, r...), rr...), req...)
+		emit(fmt.Sprintf("res-inf-%d", i), 12, in, "resource/comparisons/sentinel", true, nil)
 	}
 	// resource vectors
 	for i := 0; i < 3*n; i++ {
